@@ -37,7 +37,7 @@ use serde_json::{json, Value as Json};
 use swimos_form::read::RecognizerReadable;
 use swimos_form::write::StructuralWritable;
 use swimos_model::{Item, Value};
-use swimos_recon::parser::{parse_recognize, parse_recon_document, AsyncParseError, RecognizerDecoder};
+use swimos_recon::parser::{parse_recognize, parse_recon_document, parse_text_token, AsyncParseError, RecognizerDecoder, Span};
 use swimos_recon::{print_recon, print_recon_compact, print_recon_pretty, WithLenRecognizerDecoder, WithLenReconEncoder};
 use tokio_util::codec::Encoder;
 
@@ -424,6 +424,16 @@ where
     ctx.count("bytes", text.len() as u64);
     if oneshot.is_err() {
         ctx.count("invalid_texts", 1);
+    }
+    // The text-token entry point of the same parser (identifier or string literal over the whole input): no input
+    // may make it panic, and what it accepts is the text value the full parser reads.
+    match catch_unwind(AssertUnwindSafe(|| parse_text_token(Span::new(text)).map(|c| c.to_string()).map_err(|e| e.to_string()))) {
+        Ok(Ok(_)) => ctx.count("text_tokens_accepted", 1),
+        Ok(Err(_)) => ctx.count("text_tokens_rejected", 1),
+        Err(p) => {
+            let m = panic_message(p);
+            ctx.violate("C09.no_panic", "parse_text_token", format!("[{label}] text=`{}` panic: {}", show(text, 200), show(&m, 200)));
+        }
     }
     let bytes = text.as_bytes();
     let framed = with_len_frame(bytes);
